@@ -102,7 +102,7 @@ def mutations(req, rng, n):
             raw = r.bytes()
         elif el == "target":
             t = r.target if isinstance(r.target, str) else "/"
-            r.target = rng.choice([b"", b"x", b":x", b"*", b"http://h/x", b"//host/x", b"/%", b"/%zz", b"/a b", b"/\xff", b"/" + b"a" * 9000, b"?", b"#", b"/?", b"/#", b"/?a", b"/?=", b"/?&", b"/?a=%", b"//", b"/./", b"/../", b"\\", b"/\x00", t.encode() + b"?" + rng.choice(JUNK), t.encode() + b"#" + rng.choice(JUNK), t.encode() + rng.choice(JUNK), b"/" + rng.choice(JUNK), b"http://[::1", b"/a?b=c?d=e", b"/a#b#c", b"/a;b", b"@", b"/@", b"h:80", b"[", b"/[", b"/]"])
+            r.target = rng.choice([b"", b"x", b":x", b"*", b"http://h/x", b"//host/x", b"/%", b"/%zz", b"/a b", b"/\xff", b"/" + b"a" * 9000, b"?", b"#", b"/?", b"/#", b"/?a", b"/?=", b"/?&", b"/?a=%", b"//", b"/./", b"/../", b"\\", b"/\x00", t.encode() + b"?" + rng.choice(JUNK), t.encode() + b"#" + rng.choice(JUNK), t.encode() + rng.choice(JUNK), b"/" + rng.choice(JUNK), b"http://[::1", b"?x=http://h/p", b"?a:b/c", b"#a:b/c", b"?next=//h:x/", b"#@h:1/", b"/?u=http://h:80/p#f:g/h", b"?:/", b"#:/", b"/a?b=c?d=e", b"/a#b#c", b"/a;b", b"@", b"/@", b"h:80", b"[", b"/[", b"/]"])
             raw = r.bytes()
         elif el == "version":
             r.version = rng.choice(["", "HTTP/1.2", "HTTP/3", "http/1.1", "HTTP", "HTTP/1.1 x", "HTTP/1.1\x00", "HTTPS/1.1", "1.1", "HTTP/1.1 ", " HTTP/1.1"])
